@@ -226,6 +226,7 @@ func (rs *rowStore) memStoreSize() int {
 }
 
 func (rs *rowStore) insert(insert *insert) {
+	verifRSSent(rs)
 	rs.inserts <- insert
 }
 
@@ -285,6 +286,7 @@ func (rs *rowStore) processInserts(offsetsBySource common.OffsetsBySource, stop 
 	for {
 		select {
 		case insert := <-rs.inserts:
+			verifPoint("rs.insert.recv")
 			rs.mx.Lock()
 			ms.offsetsBySource[insert.source] = insert.offset
 			ms.offsetChanged = true
@@ -293,6 +295,8 @@ func (rs *rowStore) processInserts(offsetsBySource common.OffsetsBySource, stop 
 				rs.t.updateHighWaterMarkMemory(insert.vals.TimeInt())
 			}
 			rs.mx.Unlock()
+			verifRSApplied(rs)
+			verifPoint("rs.insert.applied")
 		case <-flushTimer.C:
 			rs.t.log.Trace("Requesting flush due to flush interval")
 			flush(false)
@@ -321,6 +325,7 @@ func (rs *rowStore) processInserts(offsetsBySource common.OffsetsBySource, stop 
 				rs.memStore = ms
 				rs.mx.Unlock()
 			}
+			verifFieldsApplied(rs)
 		}
 	}
 }
@@ -382,6 +387,7 @@ func (rs *rowStore) doProcessFlush(ms *memstore, allowSort, allowFailure bool) (
 	}
 
 	fs.t.log.Debugf("Starting flush, %v", willSort)
+	verifPoint("flush.start")
 	start := time.Now()
 
 	out, err := ioutil.TempFile("", "nextrowstore")
@@ -407,9 +413,11 @@ func (rs *rowStore) doProcessFlush(ms *memstore, allowSort, allowFailure bool) (
 		rs.t.db.Panic(flushErr)
 	}
 
+	verifPoint("flush.written")
 	if syncErr := out.Sync(); syncErr != nil {
 		rs.t.db.Panic(syncErr)
 	}
+	verifPoint("flush.synced")
 	fi, err := out.Stat()
 	if err != nil {
 		fs.t.log.Errorf("Unable to stat output file to get size: %v", err)
@@ -417,6 +425,7 @@ func (rs *rowStore) doProcessFlush(ms *memstore, allowSort, allowFailure bool) (
 	if closeErr := out.Close(); closeErr != nil {
 		rs.t.db.Panic(closeErr)
 	}
+	verifPoint("flush.closed")
 
 	// Note - we left-pad the unix nano value to the widest possible length to
 	// ensure lexicographical sort matches time-based sort (e.g. on directory
@@ -425,6 +434,7 @@ func (rs *rowStore) doProcessFlush(ms *memstore, allowSort, allowFailure bool) (
 	if renameErr := os.Rename(out.Name(), newFileStoreName); renameErr != nil {
 		rs.t.db.Panic(renameErr)
 	}
+	verifPoint("flush.renamed")
 	defer func() {
 		shasum, err := calcShaSum(newFileStoreName)
 		if err != nil {
@@ -440,6 +450,7 @@ func (rs *rowStore) doProcessFlush(ms *memstore, allowSort, allowFailure bool) (
 	rs.fileStore = fs
 	rs.memStore = ms
 	rs.mx.Unlock()
+	verifPoint("flush.swapped")
 
 	flushDuration := time.Now().Sub(start)
 	if fi != nil {
@@ -665,15 +676,18 @@ func (rs *rowStore) writeOffsets(offsetsBySource common.OffsetsBySource) error {
 	if err != nil {
 		return errors.New("Unable to write offsets: %v", err)
 	}
+	verifPoint("offsets.written")
 
 	err = out.Sync()
 	if err != nil {
 		return errors.New("Unable to sync offset file: %v", err)
 	}
+	verifPoint("offsets.synced")
 	err = out.Close()
 	if err != nil {
 		return errors.New("Unable to close offset file: %v", err)
 	}
+	defer verifPoint("offsets.renamed")
 
 	return os.Rename(out.Name(), filepath.Join(rs.opts.dir, offsetFilename))
 }
